@@ -44,8 +44,8 @@ func TestC07(t *testing.T) {
 			},
 			"prefill":     func(t *rapid.T) { mc.prefillAction(t); mutate() },
 			"bulkDelete":  func(t *rapid.T) { mc.ActBulkDelete(t); mutate() },
-			"dropColumn":  mc.ActDropColumn,
-			"lateColumn":  mc.ActLateColumn,
+			"dropColumn":  func(t *rapid.T) { mc.ActDropColumn(t) },
+			"lateColumn":  func(t *rapid.T) { mc.ActLateColumn(t) },
 			"createIndex": func(t *rapid.T) { mc.ActCreateIndex(t) },
 			"createSortIndexOrTrigger": func(t *rapid.T) {
 				// computed columns that are NOT bitmap indexes also sit in the column registry; columns
